@@ -110,7 +110,9 @@ def compute_interpolation_weights(inputs, keypoints, lengths):
     Interpolation weights tensor of shape: `(batch_size, num_keypoints)` or
     `(batch_size, units, num_keypoints)`.
   """
-  weights = (inputs - keypoints) / lengths
+  # Learned keypoints can collapse: a piece whose length underflows to zero
+  # would give 0/0 for an input on that keypoint.
+  weights = (inputs - keypoints) / tf.maximum(lengths, 1e-30)
   weights = tf.minimum(weights, 1.0)
   weights = tf.maximum(weights, 0.0)
   # Prepend 1.0 at the beginning to add bias unconditionally. Worth testing
